@@ -1,5 +1,6 @@
 CONSTANTS
   NSlots = 12
+  Abs = TRUE
   Lean = FALSE
   Vocab = "all"
 INIT RInit
